@@ -7,7 +7,7 @@ import sys
 
 from . import digest as D
 from . import zygote
-from .faults import IOFaults, Interrupt
+from .faults import IOFaults, Interrupt, faulted_bytes
 from .gen import render as render_script
 
 ENV_OPS = ("write", "unlink", "chdir", "mkdir", "symlink")
@@ -240,12 +240,28 @@ class Executor:
             intr = Interrupt(self.trace_files, at=fault.get("at"), exc=fault.get("exc", "MemoryError"))
         elif fault and fault.get("kind") == "count":
             intr = Interrupt(self.trace_files, at=None)
+        elif fault and fault.get("kind") == "gc":
+            # the cycle collector runs at ONE chosen line event of the package's own code
+            intr = Interrupt(self.trace_files, at=fault.get("at"), action="collect")
+        elif fault and fault.get("kind") == "count_all":
+            intr = Interrupt(self.trace_files, at=None, action="collect")
         prog = None
+        # torn / flipped content is made REAL on disk for the duration of the load (and the
+        # original restored afterwards), so that stat(), mmap, os.open, pathlib and open() all
+        # see one consistent file and anything validating by size/mtime revalidates
+        on_disk = None
+        if io_d and io_d.get("what") in ("tear", "flip") and io_d.get("path"):
+            target = os.path.join(self.root, os.path.normpath(io_d["path"]))
+            try:
+                with open(target, "rb") as f:
+                    original = f.read()
+                _write_file(target, faulted_bytes(original, io_d))
+                on_disk = (target, original, os.path.normpath(io_d["path"]))
+            except OSError:
+                on_disk = None
+            io_d = None
         iof = IOFaults(self.root, io_d, self.scratch)
-        import gc
         try:
-            if getattr(self, "gc_in_loads_only", False):
-                gc.enable()
             with iof:
                 if intr is not None:
                     with intr:
@@ -268,12 +284,13 @@ class Executor:
                 del cell
         finally:
             sys.settrace(None)
-            if getattr(self, "gc_in_loads_only", False):
-                gc.disable()
+            if on_disk:
+                _write_file(on_disk[0], on_disk[1])
         if iof.harness_error:
             raise RuntimeError(iof.harness_error)        # -> harness error in the parent
         ev["opens"] = iof.opens
-        ev["fired"] = bool(iof.fired or (intr is not None and intr.fired))
+        fired_disk = bool(on_disk and on_disk[2] in iof.opens)
+        ev["fired"] = bool(iof.fired or fired_disk or (intr is not None and intr.fired))
         if intr is not None:
             ev["lines"] = intr.count
             ev["where"] = intr.where
@@ -419,7 +436,10 @@ class Executor:
                 v = p.is_template()
             else:
                 v = getattr(p, a)
-            out.append([a, D.sha(D.render(v, self.root, self.loose))])
+            if a == "operations":
+                out.append([a, D.sha([D.render_op(o, self.root, self.loose) for o in v])])
+            else:
+                out.append([a, D.sha(D.render(v, self.root, self.loose))])
         return out
 
     def op_deepcopy(self, st):
@@ -537,27 +557,21 @@ class Executor:
 
 
 def run_plan(plan, root, scratch, mode="history", only=None, observe="all",
-             messages=True, loose=False, gc_threshold=None, gc_in_loads_only=False):
+             messages=True, loose=False, gc_off=False):
     """Execute plan; return list of events.
 
     mode 'history': every step.  mode 'pristine': environment steps before index
     `only`, then step `only` alone."""
-    if gc_threshold or gc_in_loads_only:
+    if gc_off:
+        # automatic cycle collection is off in this child: garbage a caller is still holding
+        # is finalised only where a plan step says so ("gc" fault: collector runs at one chosen
+        # line event of a later load) - a function of the plan, not of allocation counters
         import gc
-        gc.collect()                 # counters start from zero in every child, wherever it was forked
-        if gc_threshold:
-            gc.set_threshold(int(gc_threshold), 5, 5)
+        gc.disable()
     reset_root(root)
     private_env(scratch)
     os.chdir(root)
     ex = Executor(root, scratch, observe=observe, messages=messages, loose=loose)
-    ex.gc_in_loads_only = bool(gc_in_loads_only)
-    if gc_in_loads_only:
-        # the cycle collector runs only while the package under test is running: garbage a
-        # caller is still holding when it starts the next load is finalised inside that load
-        # (a program that allocates little between two loads behaves like this)
-        import gc
-        gc.disable()
     events = []
     for i, st in enumerate(plan):
         if mode == "pristine":
